@@ -27,6 +27,9 @@ if False:
 
 
 class Server(object):
+    # what a client may ask for
+    requests = ('configure', 'assist', 'location', 'lint', 'eval')
+
     def __init__(self, conn):
         # type: (_ConnectionBase) -> None
         self.conn = conn
@@ -39,6 +42,9 @@ class Server(object):
         # type: (str, tuple[t.Any], dict[str, t.Any]) -> tuple[t.Any, bool]
         try:
             is_ok = True
+            if name not in self.requests:
+                # run, process, conn ...: attributes, but no requests
+                raise AttributeError('Unknown request: {}'.format(name))
             result = getattr(self, name)(*args, **kwargs)
         except Exception as e:
             logger.exception('%s error', name)
